@@ -137,6 +137,11 @@ func pageServer() (*httptest.Server, error) {
 			}
 		}()
 		srv = httptest.NewServer(http.HandlerFunc(func(w http.ResponseWriter, r *http.Request) {
+			if strings.HasPrefix(r.URL.Path, "/redir/") {
+				// the same page under another address, reached through a redirect
+				http.Redirect(w, r, strings.TrimPrefix(r.URL.Path, "/redir"), http.StatusMovedPermanently)
+				return
+			}
 			v, ok := srvPages.Load(r.URL.Path)
 			if !ok {
 				http.NotFound(w, r)
